@@ -238,14 +238,16 @@ def run(ctx):
     walks, nedges, nstates = cover_walks(tlc.leaves(r["out"]), rng)
     if nedges < 20000:
         raise core.Infra("edge export produced only %d edges" % nedges)
-    # every walk on the plain build; a seeded fifth of them (all in the thorough tier) and the simulated
-    # schedules on the ASan/UBSan build
-    jobs_plain = [(COVER, w) for w in walks]
+    # thorough: every walk on the plain build and again on the ASan/UBSan build.  quick: a seeded half of
+    # the walks on the plain build and a seeded seventh on the ASan build (keeps the tier near a minute;
+    # different seeds take different halves)
     if ctx.quick:
         sub = list(walks)
         rng.shuffle(sub)
-        sub = sub[:max(200, len(walks) // 5)]
+        jobs_plain = [(COVER, w) for w in sub[:len(sub) // 2]]
+        sub = sub[len(sub) // 2:][:max(200, len(walks) // 7)]
     else:
+        jobs_plain = [(COVER, w) for w in walks]
         sub = walks
     jobs = [(COVER, w) for w in sub]
     nsim = 150 if ctx.quick else 5000
@@ -274,7 +276,8 @@ def run(ctx):
     div = {k: v for k, v in lab.items() if not k.startswith("conform:")}
     ctx.extra["steps_conforming_to_spec_action"] = sum(v for k, v in lab.items() if k.startswith("conform:"))
     ctx.extra["steps_not_conforming"] = div
-    ctx.extra["edge_cover"] = {"states": nstates, "edges": nedges, "walks": len(walks), "walks_also_under_asan": len(sub)}
+    ctx.extra["edge_cover"] = {"states": nstates, "edges": nedges, "walks_covering_all_edges": len(walks),
+                               "walks_run_plain": len(jobs_plain), "walks_run_asan": len(sub)}
     ctx.tick("validate_ctl")
 
     # ---- free-running threads ---------------------------------------------------------------------
@@ -307,7 +310,7 @@ def run(ctx):
                 "schedules of a larger one are executed on the real queue one atomic step at a time, each step judged by the "
                 "TLA+ monitor; %d free-running runs (2-16 threads) judged on their pop logs. distinct = distinct step "
                 "sequences / thread mixes with at least one successful pop"
-                % (len(walks), len(walks), nedges, len(sims), len(runs)))
+                % (len(jobs_plain) + len(sub), len(walks), nedges, len(sims), len(runs)))
     if done:
         i = done[len(done) // 2]
         ctx.sample({"cfg": alljobs[i][0], "schedule": alljobs[i][1], "trace": execs[i][:14]})
